@@ -197,6 +197,20 @@ def unit_table_check(ctx, rule):
            "every supported encoding has its Unicode code-unit width (found %s)" % got, key="unit table", loc="%s:%d" % (M.CORE, tab.lineno))
 
 
+
+def pad_content(ctx, rule):
+    """What Padded / Aligned write as padding is the construct's own pattern, repeated once per pad byte (Padding(n, pattern) is the documented
+    filler of byte- and bit-level layouts; a default pattern written instead of self.pattern changes every padded format with a custom one)."""
+    pat = N.selfattr("pattern")
+    for cls in ("Padded", "Aligned"):
+        fi, paths = own_method_paths(ctx, cls, "_build")
+        rets = [p for p in paths if p.returns]
+        good = bool(rets)
+        for p in rets:
+            w = [e for e in p.events if e.kind == "WRITE" and e["stream"] == STREAM]
+            good = good and len(w) == 1 and w[0]["data"] is not None and w[0]["data"][0] == "mul" and pat in w[0]["data"][1:] and w[0]["length"] in w[0]["data"][1:]
+        ctx.ob(rule, fi, good, "%s._build writes self.pattern repeated exactly pad times" % cls, key="%s pad content" % cls)
+
 def run(ctx):
     M = ctx.model
     core = M.modules[M.CORE]
@@ -387,6 +401,7 @@ def run(ctx):
             io_ = [e for e in p.events if e.kind == kind and e["stream"] == STREAM]
             good = good and D is not None and len(io_) == 1 and t.val(io_[0]["length"]) == N.mk_mod(N.mk_neg(D), modulus)
         ctx.ob("C03.R5", fi, good, "Aligned.%s pads with (-consumed) mod modulus bytes" % meth, key="Aligned %s pad" % meth)
+    pad_content(ctx, "C03.R5")
     fi, paths = own_method_paths(ctx, "Prefixed", "_build")
     lf = N.selfattr("lengthfield")
     inc = N.selfattr("includelength")
